@@ -48,8 +48,13 @@ class Sc(calsim.Scenario):
         self.lines.append('cal make_correlated %d %d 1 N %s' % (self.c, other, vlib.d2h(sigma)))
         hd = self.next_handle
         self.next_handle += 1
-        self.truth[hd] = [truth] * self.nf
+        self.truth[hd] = [truth] * self.nf if not isinstance(truth, list) else truth
         return hd
+
+    def vector(self, freqs, values):
+        self.lines.append('cal make_vector %d %d %s %s' % (self.c, len(freqs), ' '.join(vlib.d2h(f) for f in freqs), ' '.join(z(v) for v in values)))
+        self.next_handle += 1
+        return self.next_handle - 1
 
     def std1(self, port, handle, value):
         S = [calsim.embed(self.p, [port - 1], [[value]], self.others) for f in range(self.nf)]
@@ -68,7 +73,7 @@ def guess_near(rng, v, rel):
 
 
 def build(rng, kind, typ, nf, form, ptol=None, etol=None, limit=None, bad=False, merr=False):
-    n = 1 if kind in ('extra1', 'repeat') else 2
+    n = 1 if kind in ('extra1', 'repeat', 'repeatv') else 2
     if typ in ('T16', 'U16'):
         return None
     sc = Sc(rng, typ, n, n, nf, form=form).begin()
@@ -131,6 +136,22 @@ def build(rng, kind, typ, nf, form, ptol=None, etol=None, limit=None, bad=False,
             g = -1.0 + complex(rng.gauss(0, sigma), rng.gauss(0, sigma)) * 0.7
             hc = sc.correlated(calsim.SHORT, sigma, g)
             sc.std1(1, hc, g)
+    elif kind == 'repeatv':
+        # the same, around a frequency-dependent kit model: an offset short whose reflection turns with frequency, given as a vector
+        # parameter on a wider grid that contains the calibration frequencies
+        sigma = 1e-3
+        for code in (calsim.OPEN, calsim.MATCH):
+            sc.add_reflect(1, code)
+        turn = rng.uniform(0.4, 1.2)
+        model = lambda f: -cmath.exp(-2j * turn * f / sc.fvec[0])
+        fg = [sc.fvec[0] * 0.25, sc.fvec[0] * 0.6] + list(sc.fvec) + [sc.fvec[-1] * 1.5, sc.fvec[-1] * 2.0]
+        hv = sc.vector(fg, [model(f) for f in fg])
+        for _ in range(3):
+            dev = complex(rng.gauss(0, sigma), rng.gauss(0, sigma)) * 0.7
+            gl = [model(f) + dev for f in sc.fvec]
+            hc = sc.correlated(hv, sigma, gl)
+            S = [calsim.embed(sc.p, [0], [[gl[f]]], sc.others) for f in range(sc.nf)]
+            sc.lines.append('cal add %d single_reflect %s %d %d' % (sc.n, sc.mtext(sc.meas(S)), hc, 1))
     if merr:
         # the measurement-error model on (noise floor and a signal-proportional part): exact data must still be solved to the same values
         sc.lines.append('cal new_set_m_error %d 1 N S %s T %s' % (sc.n, vlib.d2h(1e-6), vlib.d2h(1e-3)))
@@ -186,7 +207,7 @@ def run(chk):
     reps = (1 if quick else 10) * (3 if broken else 1)
     scs = []
     for _ in range(reps):
-        for kind in ('extra1', 'extra2', 'trl', 'trla', 'solr', 'repeat'):
+        for kind in ('extra1', 'extra2', 'trl', 'trla', 'solr', 'repeat', 'repeatv'):
             for typ in calsim.TYPES:
                 # two-port self-calibration recipes (TRL, unknown through) are posed for the 8- and 10-term models; the 12-/14-term
                 # models with their per-column systems are not determined by them
@@ -226,7 +247,7 @@ def run(chk):
             continue
         pe, de = e
         # default tolerances are 1e-6; connection repeatability is a statistical model: within a few sigma
-        lim_p, lim_d = (5e-3, 2e-2) if s.kind == 'repeat' else (1e-4, 1e-4)
+        lim_p, lim_d = (5e-3, 2e-2) if s.kind in ('repeat', 'repeatv') else (1e-4, 1e-4)
         worst[s.kind] = max(worst.get(s.kind, 0.0), pe, de)
         if not (pe <= lim_p and de <= lim_d):
             chk.violation('wrong-' + s.kind, '%s: solved, but parameters are off by %.3e and the corrected device by %.3e (limits %.0e / %.0e)' % (tag, pe, de, lim_p, lim_d), s.lines[:s.i_apply + 1])
